@@ -40,6 +40,9 @@ pub struct Sess {
     /// every clock move since the last emitted op (the transcription needs all of them, also a
     /// `set_time` to the same instant: it evicts)
     pub pending_clock: Vec<(u64, &'static str)>,
+    /// the NEXT command is compared with the executor transcription only (`XC`), not with the reference
+    /// model: inputs on which Redis itself has no defined answer (signed overflow in its own arithmetic)
+    pub xc_only: bool,
 }
 
 /// the public entry points of `CommandExecutor` that run a data command
@@ -108,7 +111,7 @@ impl Sess {
             }
         }
         ex.set_time(VirtualTime::from_millis(now));
-        Sess { ex, now, moved: None, epoch_ms: cfg.ms(), via: Via::Execute, last_entry: "execute", evict_direct: false, script_parts: None, xc: false, pending_clock: Vec::new() }
+        Sess { ex, now, moved: None, epoch_ms: cfg.ms(), via: Via::Execute, last_entry: "execute", evict_direct: false, script_parts: None, xc: false, pending_clock: Vec::new(), xc_only: false }
     }
 
     /// Unix time in ms as the executor sees it (what the reference model calls `now`)
@@ -1497,12 +1500,14 @@ pub fn do_step(out: &mut Out, s: &mut Sess, cmd: &Command, prop: &str, seq: &[St
             out.count(&format!("cause-line:{}", sig));
         }
     }
-    let opline = match &op {
+    let xc_only = std::mem::replace(&mut s.xc_only, false);
+    let m7op = if xc_only { None } else { op.clone() };
+    let opline = match &m7op {
         Some(o) => format!("{} {} ;; {}", now, o, after),
         None => format!("{} ADOPT ;; {}", now, after),
     };
     let human = format!("t={} {:?}", now, cmd);
-    let implline = match &op {
+    let implline = match &m7op {
         Some(_) => format!("{} | {} | ro={}", reply, after, ro as u8),
         None => "adopt".to_string(),
     };
@@ -1526,6 +1531,22 @@ pub fn do_step(out: &mut Out, s: &mut Sess, cmd: &Command, prop: &str, seq: &[St
                 let nexp = s.nexp();
                 out.op(format!("{} XC {} ;; {}", s.now, o, phys), format!("{} | {} | nexp={}", reply, phys, nexp));
                 out.count("xc:executor-transcription-op");
+                // the `&self` read path: `execute_readonly` must answer what `execute` just answered
+                // (`Model.ExecutorX.cReadonly`, `Props.C17Exec.readonly_path_agrees`)
+                if matches!(cmd, Command::Get(_) | Command::Exists(_)) || matches!(cmd, Command::Keys(p) if p == "*") {
+                    let ex = &s.ex;
+                    let rr = catch_unwind(AssertUnwindSafe(|| ex.execute_readonly(cmd))).ok();
+                    let txt = match &rr { Some(rv) => reply_text(rv, reply_order(cmd)), None => "crash".to_string() };
+                    out.op(format!("{} XR {} ;; ", s.now, o), txt.clone());
+                    out.count("xc:execute_readonly");
+                    if txt != reply {
+                        out.violation(
+                            &format!("C17:execute_readonly-differs-from-execute:{}", cmd.name()),
+                            &format!("execute_readonly answered {} where execute answered {}", txt, reply),
+                            json!({"sequence": seq, "command": format!("{:?}", cmd)}),
+                        );
+                    }
+                }
             }
             (None, Some(o), _) => {
                 let nexp = s.nexp();
